@@ -536,7 +536,8 @@ func metaDeviations(c *explore.Ctx, f *sfnt.Font, spec *FontSpec, kind int) {
 		u := um{1000, matrix.Matrix{0.001, 0, 0, 0.001, 0, 0}}
 		dev(c, spec, "UnitsPerEm/FontMatrix", &u,
 			um{2048, matrix.Matrix{1.0 / 2048, 0, 0, 1.0 / 2048, 0, 0}},
-			um{1000, matrix.Matrix{0.001, 0, 0.000176, 0.001, 0, 0}})
+			um{1000, matrix.Matrix{0.001, 0, 0.000176, 0.001, 0, 0}},
+			um{1005, matrix.Matrix{1.0 / 1005, 0, 0, 1.0 / 1005, 0, 0}}) // close to the default matrix, not equal to it
 		f.UnitsPerEm, f.FontMatrix = u.upm, u.m
 	}
 }
